@@ -193,3 +193,21 @@ pub proof fn lemma_c18_auto(s: Seq<u8>, r: crate::HeaderResult)
     lemma_v2_class_of_p(s);
     lemma_c18_v1_bytes(s);
 }
+
+// [props: C19]
+/// the v1 and v2 conversions of the same socket-address pair describe the same endpoints: same
+/// family (or both unknown / unspecified for a mixed pair), and the identical IPv4 / IPv6 quadruple
+pub proof fn lemma_c19_conversions_agree(s: std::net::SocketAddr, d: std::net::SocketAddr)
+    ensures match (v1_from_sockets_spec(s, d), v2_from_sockets_spec(s, d)) {
+        (crate::v1::Addresses::Tcp4(x), crate::v2::Addresses::IPv4(y)) => x == y
+            && (s matches std::net::SocketAddr::V4(a) && x.source_address == sa4_ip(a) && x.source_port == sa4_port(a))
+            && (d matches std::net::SocketAddr::V4(b) && x.destination_address == sa4_ip(b) && x.destination_port == sa4_port(b)),
+        (crate::v1::Addresses::Tcp6(x), crate::v2::Addresses::IPv6(y)) => x == y
+            && (s matches std::net::SocketAddr::V6(a) && x.source_address == sa6_ip(a) && x.source_port == sa6_port(a))
+            && (d matches std::net::SocketAddr::V6(b) && x.destination_address == sa6_ip(b) && x.destination_port == sa6_port(b)),
+        (crate::v1::Addresses::Unknown, crate::v2::Addresses::Unspecified) =>
+            !((s is V4 && d is V4) || (s is V6 && d is V6)),
+        _ => false,
+    }
+{
+}
